@@ -25,7 +25,9 @@ CASE_TIMEOUT = 240
 
 def plan(tier):
     q = tier == "quick"
-    return [{"lane": "main", "n": 240 if q else 10000, "timeout": 900 if q else 3300, "min_per_shard": 5}]
+    return [{"lane": "main", "n": 240 if q else 10000, "timeout": 900 if q else 3300, "min_per_shard": 5},
+            # deterministic reproducer of the known finding listed for this property (gridded form of the call)
+            {"lane": "pinned", "n": 1, "timeout": 600, "optional": True}]
 
 
 def floors(tier):
@@ -55,6 +57,8 @@ def reference_grid(raw, grid, nE, exact):
 
 
 def run_case(rng, idx, tier, lane, ctx):
+    if lane == "pinned":
+        return S.pinned_k02(gridded=True)
     spec = GE.gen_events(rng, limits="default", time_dep=rng.random() < 0.5)
     theta = GE.param_values(rng, spec)
     x0 = GE.initial_state(rng, spec, hi=20)
